@@ -7,6 +7,7 @@ import (
 	"go/parser"
 	"go/token"
 	"go/types"
+	"golang.org/x/tools/go/ssa"
 	"sort"
 	"strings"
 
@@ -71,7 +72,7 @@ func C19(e *Env) {
 	r.Rule("R09.1c", "behaviour classes of the merge combinators (shared with C09)", 4)
 	r.Rule("R09.2", "the fold is *i = input.Merge(*i, decoded) (shared with C09)", 1)
 	sharedWriteRules(e)
-	r.Rule("R10.2", "regenerating in place (as `make self-compile` does) replaces the file: one os.WriteFile (create, truncate, write) (shared with C10)", 3)
+	r.Rule("R10.2", "regenerating in place (as `make self-compile` does) replaces the file: one os.WriteFile (create, truncate, write) (shared with C10)", 2)
 	r.Rule("R10.1", "the written path is the -o path (shared with C10)", 1)
 	c19StepOrder(e)
 	r.Rule("R19.3", "import aliases are numbered by first request, so the generated file depends on the order in which the compile steps run: compiler.New receives validate, meta, params, services, decorators in that order — the order the checked-in file was generated with", 1)
@@ -424,6 +425,45 @@ func c19Getters(e *Env, gm *wiring.GoModel, ym *wiring.YModel, ys *wiring.YServi
 // builtinFuncs reads the alias -> helper map that StepDefaultInput registers.
 func builtinFuncs(e *Env) map[string]string {
 	out := map[string]string{}
+	// on SSA: the constant entries of the map that is stored into Meta.Functions (a literal or make + stores)
+	if fn := e.P.Func("internal/cmd/runner", "StepDefaultInput.Run"); fn != nil {
+		var target ssa.Value
+		for _, b := range fn.Blocks {
+			for _, ins := range b.Instrs {
+				if st, ok := ins.(*ssa.Store); ok {
+					if fa, ok := st.Addr.(*ssa.FieldAddr); ok && fieldName(fa) == "Functions" {
+						target = st.Val
+					}
+				}
+			}
+		}
+		// through a local
+		if ld, ok := target.(*ssa.UnOp); ok {
+			if al, ok := ld.X.(*ssa.Alloc); ok {
+				for _, ref := range *al.Referrers() {
+					if st, ok := ref.(*ssa.Store); ok && st.Addr == al {
+						target = st.Val
+					}
+				}
+			}
+		}
+		if target != nil {
+			for _, b := range fn.Blocks {
+				for _, ins := range b.Instrs {
+					if mu, ok := ins.(*ssa.MapUpdate); ok && (mu.Map == target || sameCell(mu.Map, target)) {
+						k, ok1 := constString(mu.Key)
+						v, ok2 := constString(mu.Value)
+						if ok1 && ok2 {
+							out[k] = v
+						}
+					}
+				}
+			}
+		}
+		if len(out) > 0 {
+			return out
+		}
+	}
 	fd, pk := e.P.Decl("internal/cmd/runner", "StepDefaultInput.Run")
 	if fd == nil {
 		return out
